@@ -237,6 +237,42 @@ Proof.
   exists (mkdt (mkdate 2020 1 1) (mktod 0 0 0 0) (Some 841)). split; vm_compute; reflexivity.
 Qed.
 
+(** the guard is exact: beyond +-14:00 the printed text is not an xs:dateTime literal at all *)
+Lemma xs_tz_offset_iso_out m : -1440 < m < 1440 -> ~ (-840 <= m <= 840) ->
+  xs_tz (offset_iso m) = None.
+Proof.
+  intros Hm H. rewrite xs_tz_eq.
+  destruct (offset_roundtrip m Hm) as [Hs Hmm]. rewrite Hs.
+  pose proof (offset_iso_head m) as Hh. unfold offset_iso in *. cbn [head_is] in Hh. rewrite Hh.
+  replace (((Z.abs m / 60 <=? 13) && (Z.abs m mod 60 <=? 59))
+           || ((Z.abs m / 60 =? 14) && (Z.abs m mod 60 =? 0))) with false by lia.
+  reflexivity.
+Qed.
+
+Lemma datetime_out_lex_none v : valid_datetime v = true -> ~ xs_off_ok (dt_off v) ->
+  xs_dateTime (datetime_iso v) = None.
+Proof.
+  intros Hv Hx. destruct (valid_datetime_split v Hv) as (Hd & Ht & Ho).
+  destruct v as [d t o]. cbn [dt_d dt_t dt_off] in *.
+  destruct o as [m|]; [|exfalso; apply Hx; exact I].
+  cbn [valid_off xs_off_ok] in *. assert (Hm : -1440 < m < 1440) by lia.
+  unfold xs_dateTime, datetime_iso. cbn [dt_d dt_t dt_off].
+  rewrite (scan_date_iso d _ Hd). cbn [app obind]. rewrite scan_char_hd. cbn [obind].
+  rewrite (scan_time_iso t _ Ht (tz_start_offset m)). cbn [obind].
+  rewrite (frac_value_iso t Ht). cbn [obind].
+  rewrite (xs_tz_offset_iso_out m Hm Hx). reflexivity.
+Qed.
+
+Lemma datetime_out_lex_iff v : valid_datetime v = true ->
+  (xs_dateTime (datetime_iso v) = Some v <-> xs_off_ok (dt_off v)).
+Proof.
+  intros Hv. split; [|apply datetime_out_lex; exact Hv].
+  intros H. assert (Hdec : xs_off_ok (dt_off v) \/ ~ xs_off_ok (dt_off v)).
+  { destruct (dt_off v) as [m|]; cbn [xs_off_ok]; [lia|left; exact I]. }
+  destruct Hdec as [Hok|Hno]; [exact Hok|].
+  rewrite (datetime_out_lex_none v Hv Hno) in H. discriminate H.
+Qed.
+
 Lemma time_out_lex t : valid_tod t = true -> xs_time (time_iso t) = Some t.
 Proof.
   intros Ht. unfold xs_time. rewrite <- (app_nil_r (time_iso t)).
@@ -263,6 +299,13 @@ Proof.
   destruct (scan_frac s5) as [f' r'] eqn:Ef. inversion H; subst.
   apply scan_frac_spec in Ef. destruct f as [ds|]; [|exact I].
   destruct Ef as (HF & Hne & _). auto.
+Qed.
+
+(** the float computation is exact on every fraction of one to six digits *)
+Lemma usec_of_frac_digits ds : all_dig ds -> (1 <= length ds <= 6)%nat ->
+  usec_of_frac ds = val_digits 0 ds * 10 ^ (6 - Z.of_nat (length ds)).
+Proof.
+  intros HF Hl. apply usec_of_frac_exact; [exact HF|exact Hl|apply val_digits_bound; exact HF].
 Qed.
 
 Lemma usec_of_frac_value f u :
